@@ -1231,7 +1231,7 @@ static inline uint32_t avm_getmant32(uint32_t u, int imm) {
   if (avm_isnan32(u)) return avm_qnan32(u);
   if ((u >> 31) && (sc & 2) && !(e == 0 && f == 0)) return 0xffc00000u;   /* negative source with SignCtrl[1]: QNaN indefinite */
   int32_t ex = (int32_t)e;
-  if (e == 0xff || (e == 0 && f == 0)) { ex = 127; f = 0; }
+  if (e == 0xff || (e == 0 && f == 0)) return (sign << 31) | 0x3f800000u;   /* zero / infinity: +-1.0 whatever the interval (hardware) */
   else if (e == 0) { ex = 1; for (int i = 0; i < 23; i++) { if (f & 0x800000u) break; f <<= 1; ex--; } f &= 0x7fffffu; }
   int odd = (ex - 127) & 1;
   uint32_t ne = 127;
@@ -1244,7 +1244,7 @@ static inline uint64_t avm_getmant64(uint64_t u, int imm) {
   if (avm_isnan64(u)) return avm_qnan64(u);
   if ((u >> 63) && (sc & 2) && !(e == 0 && f == 0)) return 0xfff8000000000000ull;
   int32_t ex = (int32_t)e;
-  if (e == 0x7ff || (e == 0 && f == 0)) { ex = 1023; f = 0; }
+  if (e == 0x7ff || (e == 0 && f == 0)) return (sign << 63) | 0x3ff0000000000000ull;
   else if (e == 0) { ex = 1; for (int i = 0; i < 52; i++) { if (f & 0x10000000000000ull) break; f <<= 1; ex--; } f &= 0xfffffffffffffull; }
   int odd = (ex - 1023) & 1;
   uint64_t ne = 1023;
@@ -1253,8 +1253,11 @@ static inline uint64_t avm_getmant64(uint64_t u, int imm) {
 }
 /* VSCALEF: a * 2^floor(b) with the SDM special-case table */
 static inline uint32_t avm_scalef32(uint32_t ua, uint32_t ub) {
-  if (avm_isnan32(ua)) return avm_qnan32(ua);
-  if (avm_isnan32(ub)) return avm_qnan32(ub);
+  /* NaN handling as measured on hardware / SDM table: SNaN src1 -> QNaN(src1); NaN src2 -> src1 if NaN else QNaN(src2);
+     QNaN src1 with +Inf src2 -> +Inf, with -Inf src2 -> +0, otherwise src1 */
+  if (avm_isnan32(ua) && !(ua & 0x400000u)) return avm_qnan32(ua);
+  if (avm_isnan32(ub)) return avm_isnan32(ua) ? ua : avm_qnan32(ub);
+  if (avm_isnan32(ua)) return ub == 0x7f800000u ? 0x7f800000u : (ub == 0xff800000u ? 0u : ua);
   uint32_t sa = ua & 0x80000000u;
   int a_inf = (ua & 0x7fffffffu) == 0x7f800000u, a_zero = (ua & 0x7fffffffu) == 0;
   if (ub == 0x7f800000u) return a_zero ? 0xffc00000u : (sa | 0x7f800000u);
@@ -1266,8 +1269,9 @@ static inline uint32_t avm_scalef32(uint32_t ua, uint32_t ub) {
   return avm_f2u((float)((double)avm_u2f(ua) * p));
 }
 static inline uint64_t avm_scalef64(uint64_t ua, uint64_t ub) {
-  if (avm_isnan64(ua)) return avm_qnan64(ua);
-  if (avm_isnan64(ub)) return avm_qnan64(ub);
+  if (avm_isnan64(ua) && !(ua & 0x8000000000000ull)) return avm_qnan64(ua);
+  if (avm_isnan64(ub)) return avm_isnan64(ua) ? ua : avm_qnan64(ub);
+  if (avm_isnan64(ua)) return ub == 0x7ff0000000000000ull ? 0x7ff0000000000000ull : (ub == 0xfff0000000000000ull ? 0ull : ua);
   uint64_t sa = ua & 0x8000000000000000ull;
   int a_inf = (ua << 1) == 0xffe0000000000000ull, a_zero = (ua << 1) == 0;
   if (ub == 0x7ff0000000000000ull) return a_zero ? 0xfff8000000000000ull : (sa | 0x7ff0000000000000ull);
@@ -1311,7 +1315,7 @@ static inline uint32_t avm_fixup32(uint32_t dst, uint32_t b, uint32_t tbl) {
   else if (e == 0xff) cls = s ? 4 : 5;
   else cls = s ? 6 : 7;
   switch ((tbl >> (4 * cls)) & 0xf) {
-    case 0: return dst;            case 1: return b;                 case 2: return avm_qnan32(b);  case 3: return 0xffc00000u;
+    case 0: return dst;            case 1: return b;                 case 2: return b | 0x7fc00000u; case 3: return 0xffc00000u;
     case 4: return 0xff800000u;    case 5: return 0x7f800000u;       case 6: return (s << 31) | 0x7f800000u; case 7: return 0x80000000u;
     case 8: return 0;              case 9: return 0xbf800000u;       case 10: return 0x3f800000u;   case 11: return 0x3f000000u;
     case 12: return 0x42b40000u;   case 13: return 0x3fc90fdbu;      case 14: return 0x7f7fffffu;   default: return 0xff7fffffu;
@@ -1326,7 +1330,7 @@ static inline uint64_t avm_fixup64(uint64_t dst, uint64_t b, uint64_t tbl) {
   else if (e == 0x7ff) cls = s ? 4 : 5;
   else cls = s ? 6 : 7;
   switch ((tbl >> (4 * cls)) & 0xf) {
-    case 0: return dst;            case 1: return b;                 case 2: return avm_qnan64(b);  case 3: return 0xfff8000000000000ull;
+    case 0: return dst;            case 1: return b;                 case 2: return b | 0x7ff8000000000000ull; case 3: return 0xfff8000000000000ull;
     case 4: return 0xfff0000000000000ull; case 5: return 0x7ff0000000000000ull; case 6: return (s << 63) | 0x7ff0000000000000ull; case 7: return 0x8000000000000000ull;
     case 8: return 0;              case 9: return 0xbff0000000000000ull; case 10: return 0x3ff0000000000000ull; case 11: return 0x3fe0000000000000ull;
     case 12: return 0x4056800000000000ull; case 13: return 0x3ff921fb54442d18ull; case 14: return 0x7fefffffffffffffull; default: return 0xffefffffffffffffull;
@@ -1337,11 +1341,12 @@ static inline uint32_t avm_range32(uint32_t a, uint32_t b, int imm) {
   int op = imm & 3, sc = (imm >> 2) & 3;
   if (avm_isnan32(a) && !(a & 0x400000u)) return avm_qnan32(a);
   if (avm_isnan32(b) && !(b & 0x400000u)) return avm_qnan32(b);
-  if (avm_isnan32(a)) return avm_isnan32(b) ? a : b;
-  if (avm_isnan32(b)) return a;
   uint32_t ma = a & 0x7fffffffu, mb = b & 0x7fffffffu, t;
   float fa = avm_u2f(a), fb = avm_u2f(b);
-  if (op < 2) {
+  /* QNaN operands: select (a if both NaN, else the non-NaN one); the sign control still applies (hardware) */
+  if (avm_isnan32(a)) t = avm_isnan32(b) ? a : b;
+  else if (avm_isnan32(b)) t = a;
+  else if (op < 2) {
     int a_le;                     /* total order on values, with -0 < +0 */
     if (fa == fb) a_le = (a >> 31) >= (b >> 31); else a_le = fa < fb;
     t = (op == 0) ? (a_le ? a : b) : (a_le ? b : a);
@@ -1357,11 +1362,11 @@ static inline uint64_t avm_range64(uint64_t a, uint64_t b, int imm) {
   const uint64_t Q = 0x8000000000000ull, SB = 0x8000000000000000ull;
   if (avm_isnan64(a) && !(a & Q)) return avm_qnan64(a);
   if (avm_isnan64(b) && !(b & Q)) return avm_qnan64(b);
-  if (avm_isnan64(a)) return avm_isnan64(b) ? a : b;
-  if (avm_isnan64(b)) return a;
   uint64_t ma = a & ~SB, mb = b & ~SB, t;
   double fa = avm_u2d(a), fb = avm_u2d(b);
-  if (op < 2) {
+  if (avm_isnan64(a)) t = avm_isnan64(b) ? a : b;
+  else if (avm_isnan64(b)) t = a;
+  else if (op < 2) {
     int a_le;
     if (fa == fb) a_le = (a >> 63) >= (b >> 63); else a_le = fa < fb;
     t = (op == 0) ? (a_le ? a : b) : (a_le ? b : a);
